@@ -477,6 +477,14 @@ pub fn run_pbt<P: Prop>(ctx: &Ctx, prop: &P, cases: u64) {
                             Ok(())
                         }
                         Err(f) => {
+                            if f.sig["kind"] == "setup_failed" {
+                                // infrastructure problem (harness / environment), not a verdict
+                                let mut inc = ctx.inconclusive.lock().unwrap();
+                                if inc.len() < 5 {
+                                    inc.push(format!("{}:{} setup failed: {}", ctx.prop, prop.part(), f.msg));
+                                }
+                                return Ok(());
+                            }
                             if ctx.is_known(&f.sig) {
                                 if !failed.get() {
                                     let mut st = stats.borrow_mut();
@@ -509,7 +517,7 @@ pub fn run_pbt<P: Prop>(ctx: &Ctx, prop: &P, cases: u64) {
                             for _ in 0..5 {
                                 let env = ctx.env(true);
                                 if let Err(f) = run_guarded(prop, &case, &env) {
-                                    if !ctx.is_known(&f.sig) {
+                                    if !ctx.is_known(&f.sig) && f.sig["kind"] != "setup_failed" {
                                         reproduced += 1;
                                         last = Some(f);
                                     }
@@ -570,7 +578,9 @@ pub fn run_cases<P: Prop>(ctx: &Ctx, prop: &P, part: &str, cases: Vec<P::Case>, 
                         }
                         Err(f) => {
                             st.evaluations += 1;
-                            if let Some(id) = ctx.known_id(&f.sig) {
+                            if f.sig["kind"] == "setup_failed" {
+                                ctx.inconclusive.lock().unwrap().push(format!("{}:{} setup failed: {}", ctx.prop, part, f.msg));
+                            } else if let Some(id) = ctx.known_id(&f.sig) {
                                 *st.known_hits.entry(id).or_default() += 1;
                             } else {
                                 ctx.report_violation(part, case, &f);
